@@ -188,7 +188,16 @@ def r_negamax(ck, fn):
             continue
         for s in blk["stmts"]:
             if s["k"] == "assign" and s["place"] == {"l": 0, "p": []} and "agg" in s["rv"] and s["rv"]["agg"].get("variant") == "Ok":
-                rets.append((bb, s.get("line"), tb.operand(s["rv"]["ops"][0]), guards_of(prog, b, bb, tb)))
+                v0 = tb.operand(s["rv"]["ops"][0])
+                if v0[0] == "var" and v0[1] not in av and v0[1] not in bv:
+                    # `let evaluation = if .. { a } else { b }; return Ok(evaluation)`: each alternative, located where it is chosen
+                    alts = [(d[1], d) for d in tb.d.defs.get(v0[1], [])]
+                    if len(alts) > 1:
+                        for dbb, d in alts:
+                            dv = tb.call_term(d[2]) if d[0] == "call" else tb.rvalue(d[3])
+                            rets.append((dbb, (d[2].get("line") if d[0] == "call" else d[3].get("line")) or s.get("line"), dv, guards_of(prog, b, dbb, tb)))
+                        continue
+                rets.append((bb, s.get("line"), v0, guards_of(prog, b, bb, tb)))
     ck.floor("R3", len(rets), 3, "Ok returns of %s" % short)
     # R3: cut-off
     cuts = 0
@@ -239,7 +248,17 @@ def r_negamax(ck, fn):
     ck.req(len(finals) >= 1, "R5.returns_alpha", short, b.where(), "the node does not return alpha after its moves were searched")
     # ---- R6 terminal scoring
     terms_ = [(bb, line, v) for bb, line, v, g in rets if is_call(v, EVALUATE)]
-    ck.floor("R6", len(terms_), 1, "evaluator-scored returns in %s" % short)
+    # the same scoring written out in the search: the side to move is mated (in check) -> -mate_in_ply(ply of the node), else draw
+    MATE_ = EV + "Evaluation::mate_in_ply"
+    inline_mates = [(bb, line, v, g) for bb, line, v, g in rets if any(is_call(x, MATE_) for x in walk(v))]
+    for bb, line, v, g in inline_mates:
+        names_ = {b.local_name(i): i for i in range(1, b.arg_count + 1)}
+        inner = _neg(v)
+        ply_ok = inner is not None and is_call(inner, MATE_) and (inner[2][0] == ("param", names_.get("current_depth")) or fn == QS)
+        in_check = any(tk is True and is_call(c, "weechess_core::state::State::is_check") for c, tk in g)
+        ck.req(ply_ok and in_check, "R6.terminal_score", "%s@bb%d" % (short, bb), b.where(line),
+               "a mate score returned by the search itself is not `-mate_in_ply(ply of this node)` under `in check` (the side to move is the mated one): %s" % show(v)[:100])
+    ck.floor("R6", len(terms_) + len(inline_mates), 1, "evaluator-scored returns in %s" % short)
     for bb, line, v in terms_:
         a = v[2]
         state_ok = a[1] == ("param", 1)
